@@ -312,6 +312,8 @@ type c29Case struct {
 	// the process: every (abi, type, kind) in the order of its first use, then "...", then
 	// the last few uses. A replay performs them (with zero values) before judging the case.
 	Before []string `json:"used_before,omitempty"`
+	// Conc > 0: the case was judged while Conc goroutines were using the dynamic codec at the same time.
+	Conc int `json:"concurrent_goroutines,omitempty"`
 }
 
 // c29Proto is one registered (abi, type, kind).
@@ -528,16 +530,24 @@ func judgeC29(r *kit.Run, c c29Case) {
 	native, _ := hex.DecodeString(c.Bytes)
 	want, err := normJSON(c.JSON)
 	if err != nil {
+		if c.Conc > 0 { // not on the test goroutine
+			r.Inconclusive("harness: value JSON unparsable: %v", err)
+			return
+		}
 		r.T.Fatalf("harness: value JSON unparsable: %v", err)
 	}
 	pre := "C29/" + c.Type + "/"
+	where := "dynamic"
 	switch {
+	case c.Conc > 0:
+		pre = "C29/concurrent/" + c.Type + "/"
+		where = "concurrent/dynamic"
 	case c.Class != "":
 		pre = "C29/" + c.Class + "/" + c.Type + "/"
 	case strings.HasPrefix(c.ABI, "c29"):
 		pre = "C29/" + c.ABI + "." + c.Type + "/"
 	}
-	r.Guard("dynamic", c, func() {
+	r.Guard(where, c, func() {
 		if c.Kind == "action" {
 			dyn, err := dynamic.Marshal(a, c.Type, c.JSON)
 			switch {
@@ -576,27 +586,32 @@ func judgeC29(r *kit.Run, c c29Case) {
 // c29NativeParse: morpheusvm's own parser reads the dynamic encoding of a Transfer back
 // to the same value (same native bytes).
 func c29NativeParse(r *kit.Run, c c29Case) {
-	r.Guard("native-parse-of-dynamic-bytes", c, func() {
+	where, pre := "native-parse-of-dynamic-bytes", "C29/Transfer/"
+	if c.Conc > 0 {
+		where, pre = "concurrent/native-parse-of-dynamic-bytes", "C29/concurrent/Transfer/"
+	}
+	r.Guard(where, c, func() {
 		dyn, err := dynamic.Marshal(c29ABIs["morpheusvm"], "Transfer", c.JSON)
 		if err != nil {
 			return // reported by judgeC29
 		}
 		back, err := mvm.ActionParser.Unmarshal(dyn)
 		if err != nil {
-			r.Violation("C29/Transfer/native-parser-rejects-dynamic-bytes", c, "native parser rejects dynamic.Marshal output %x: %v", dyn, err)
+			r.Violation(pre+"native-parser-rejects-dynamic-bytes", c, "native parser rejects dynamic.Marshal output %x: %v", dyn, err)
 			return
 		}
 		bt, ok := back.(*actions.Transfer)
 		if !ok || hex.EncodeToString(bt.Bytes()) != c.Bytes {
-			r.Violation("C29/Transfer/native-parser-differs", c, "native parser reads dynamic bytes %x as %+v, the value is %s", dyn, back, c.JSON)
+			r.Violation(pre+"native-parser-differs", c, "native parser reads dynamic bytes %x as %+v, the value is %s", dyn, back, c.JSON)
 		}
 	})
 }
 
 func TestC29(t *testing.T) {
 	r := kit.Start(t, "C29", "exploration")
-	r.Rule("one process, PRNG-ordered interleaving of six ABIs: morpheusvm (Transfer / TransferResult), a harness ABI (structs covering every declared kind, plus types with ZERO serialized fields, a single field, only strings/lists) and four ABIs built with abi.NewABI from four Go type sets (packages c29a..c29d) that share the type names Transfer, TransferResult (also with morpheusvm), Batch, Ping, Lists, One, Ack, Receipt and the nested name Leg with different field lists / orders / widths / kinds / type ids; each step keeps the ABI of the preceding step (1/4) or draws one uniformly, then a registered type of it. Values drawn by reflection (every integer width at 0 / max / min / -1 / 2^53+1 / random, strings incl. unicode, escapes, NUL and 300 bytes, byte slices and lists nil / empty / 1 / few / 200+, nested and embedded structs, fixed arrays, lists of lists, addresses; 1 in 6 values with every string and list empty). Judged for the value actually used: dynamic.Marshal(abi, name, json(v)) == type id | linear-codec bytes of v (actions), dynamic.UnmarshalAction/UnmarshalOutput(abi, native bytes) == json(v) compared as parsed JSON with exact numbers and null == empty (and never an empty answer); for morpheusvm's Transfer also native parser(dynamic bytes) == v. Non-trivial = value with at least one non-zero field, or a step that switches the ABI; distinct = (abi, type, kind, per-field value class / length class fingerprint) and, for ABI switches, (preceding abi/type/kind -> this abi/type/kind).")
+	r.Rule("one process, PRNG-ordered interleaving of six ABIs: morpheusvm (Transfer / TransferResult), a harness ABI (structs covering every declared kind, plus types with ZERO serialized fields, a single field, only strings/lists) and four ABIs built with abi.NewABI from four Go type sets (packages c29a..c29d) that share the type names Transfer, TransferResult (also with morpheusvm), Batch, Ping, Lists, One, Ack, Receipt and the nested name Leg with different field lists / orders / widths / kinds / type ids; each step keeps the ABI of the preceding step (1/4) or draws one uniformly, then a registered type of it. Values drawn by reflection (every integer width at 0 / max / min / -1 / 2^53+1 / random, strings incl. unicode, escapes, NUL and 300 bytes, byte slices and lists nil / empty / 1 / few / 200+, nested and embedded structs, fixed arrays, lists of lists, addresses; 1 in 6 values with every string and list empty). Judged for the value actually used: dynamic.Marshal(abi, name, json(v)) == type id | linear-codec bytes of v (actions), dynamic.UnmarshalAction/UnmarshalOutput(abi, native bytes) == json(v) compared as parsed JSON with exact numbers and null == empty (and never an empty answer); for morpheusvm's Transfer also native parser(dynamic bytes) == v. Concurrent part: 12 goroutines (own PRNG streams) draw (ABI, registered type, value) the same way and encode / decode through the ABIs at the same time; every result is judged against the native bytes / the value's JSON exactly as in the sequential part (keys C29/concurrent/<type>/..., panics included). Non-trivial = value with at least one non-zero field, or a step that switches the ABI; distinct = (abi, type, kind, per-field value class / length class fingerprint) and, for ABI switches, (preceding abi/type/kind -> this abi/type/kind).")
 	r.Assume(
+		"encoding / decoding through an ABI is a function of (ABI, type, value): the result required of one call does not depend on other calls running at the same time",
 		"only kinds the ABI layer declares (ints of all widths, string, []byte, Address, structs, slices, fixed arrays); bool, maps, pointers and named non-struct types are outside its declared support",
 		"strings are valid UTF-8 (encoding/json itself is lossy otherwise)",
 		"dynamic.Marshal has no output path by design: only decoding is judged for outputs",
@@ -608,6 +623,12 @@ func TestC29(t *testing.T) {
 	if rf := r.Replay(); rf != nil && len(rf.Witness) > 0 {
 		var c c29Case
 		if err := json.Unmarshal(rf.Witness, &c); err == nil && c.Type != "" {
+			if c.Conc > 0 {
+				// an interleaving cannot be replayed step by step: re-run the concurrent part
+				c29Concurrent(r, c.Conc, r.N(1500, 20000))
+				r.Finish(0)
+				return
+			}
 			for _, k := range c.Before {
 				if p := c29ByKey[k]; p != nil {
 					c29Warm(r, p)
@@ -717,5 +738,7 @@ func TestC29(t *testing.T) {
 			r.Sample(c)
 		}
 	}
+	// the same judgement while several goroutines use the dynamic codec at once
+	c29Concurrent(r, 12, r.N(1500, 20000))
 	r.Finish(r.N(500, 2000))
 }
